@@ -333,7 +333,7 @@ class Interp:
                 raise ModelError('XPST0017', name)
             self.flags.add('hof-reference')
             return (Fn(HOFS[a[1]], himpl, 'hof-' + name),)
-        if t == 'bi':       # direct call of a builtin: ['bi', name, arg...]; an arg ['?'] makes a partial application
+        if t in ('bi', 'bia'):       # direct call of a builtin ('bia': written with the arrow operator): ['bi', name, arg...]; an arg ['?'] makes a partial application
             f = _builtin(a[1], len(a) - 2)
             args = [None if x[0] == '?' else self.ev(x, env) for x in a[2:]]
             if any(x is None for x in args):
@@ -487,6 +487,8 @@ def render(a):
         return '%s#%d' % (a[1], HOFS[a[1]])
     if t == 'bi':
         return '%s(%s)' % (a[1], ', '.join('?' if x[0] == '?' else render_arg(x) for x in a[2:]))
+    if t == 'bia':
+        return '(%s => %s(%s))' % (r(a[2]), a[1], ', '.join('?' if x[0] == '?' else render_arg(x) for x in a[3:]))
     if t == 'call':
         f = r(a[1])
         if a[1][0] in ('fn', 'named', 'hof'):
@@ -858,11 +860,17 @@ class Gen:
             return self.gen_let('S', env, d)
         if k == 15:
             b = r.choice(['reverse', 'remove', 'index-of', 'insert-before', 'tail'])
+            tag = 'bia' if (not self.scope_only and r.random() < 0.35) else 'bi'
+            if tag == 'bia' and b in ('remove', 'index-of') and not self.no_partial and r.random() < 0.5:
+                # a partial application written with the arrow operator, used twice
+                self.features.add('arrow-partial')
+                return ['let', 'pp', ['bia', b, self.gen_S(env, d - 1), ['?']],
+                        ['seq', ['call', ['var', 'pp'], [self.gen_I(env, 0)]], ['call', ['var', 'pp'], [self.gen_I(env, 0)]]]]
             if b == 'reverse' or b == 'tail':
-                return ['bi', b, self.gen_S(env, d - 1)]
+                return [tag, b, self.gen_S(env, d - 1)]
             if b == 'insert-before':
-                return ['bi', b, self.gen_S(env, d - 1), self.gen_I(env, d - 2), self.gen_S(env, d - 2)]
-            return ['bi', b, self.gen_S(env, d - 1), self.gen_I(env, d - 2)]
+                return [tag, b, self.gen_S(env, d - 1), self.gen_I(env, d - 2), self.gen_S(env, d - 2)]
+            return [tag, b, self.gen_S(env, d - 1), self.gen_I(env, d - 2)]
         return ['seq'] + [['int', r.randint(0, 5)] for _ in range(r.choice([0, 1, 2, 3]))]
 
     def gen_dot_I(self, env, d):
